@@ -29,11 +29,33 @@ fn model_bin<A: Ord>(edges: &[A], v: &A) -> Option<usize> {
     None
 }
 
-fn c13_edges<A: Ord + Clone + std::fmt::Debug + 'static>(acc: &mut Acc, input: &[A], probes: &[A], via_array: bool, tname: &str) -> bool {
+fn c13_edges<A: Ord + Clone + std::fmt::Debug + 'static>(acc: &mut Acc, input: &[A], probes: &[A], via: usize, junk: &A, tname: &str) -> bool {
+    let via_array = via >= 1;
     let model: Vec<A> = input.iter().cloned().collect::<BTreeSet<A>>().into_iter().collect();
-    let cj = |what: String| J::obj(vec![("elem", J::s(tname)), ("edges_input", J::s(format!("{:?}", input))), ("via", J::s(if via_array { "From<Array1>" } else { "From<Vec>" })), ("what", J::s(what))]);
+    let cj = |what: String| J::obj(vec![("elem", J::s(tname)), ("edges_input", J::s(format!("{:?}", input))), ("via", J::s(["From<Vec>", "From<Array1>", "From<Array1> (owned array stepped ..;2 inside a larger buffer)", "From<Array1> (owned array sliced 1.. and reversed)"][via % 4])), ("what", J::s(what))]);
     acc.eval();
-    let built = catch(|| if via_array { Edges::from(Array1::from(input.to_vec())) } else { Edges::from(input.to_vec()) });
+    let built = catch(|| match via % 4 {
+        0 => Edges::from(input.to_vec()),
+        1 => Edges::from(Array1::from(input.to_vec())),
+        2 => {
+            // an owned Array1 that does not cover its whole allocation: every other cell is junk
+            let mut big = Vec::with_capacity(input.len() * 2 + 1);
+            for x in input {
+                big.push(x.clone());
+                big.push(junk.clone());
+            }
+            big.push(junk.clone());
+            let n2 = big.len();
+            let a = Array1::from(big).slice_move(ndarray::s![..n2 - 1;2]);
+            Edges::from(a)
+        }
+        _ => {
+            let mut big = vec![junk.clone()];
+            big.extend(input.iter().rev().cloned());
+            let a = Array1::from(big).slice_move(ndarray::s![1..;-1]);
+            Edges::from(a)
+        }
+    });
     let edges = match built {
         Ok(e) => e,
         Err(m) => {
@@ -152,7 +174,17 @@ fn c13_grid(rng: &mut Rng, acc: &mut Acc) {
         }
         // a point inside that cell maps back to the index
         let pt: Vec<i32> = (0..nd).map(|a| models[a][idx[a]] + if rng.chance(0.5) && models[a][idx[a] + 1] - models[a][idx[a]] > 1 { 1 } else { 0 }).collect();
-        if grid.index_of(&Array1::from(pt.clone())) != Some(idx.clone()) {
+        // the point is handed over as a reversed view half of the time (coordinates must be matched to axes by
+        // logical position, not by memory position)
+        let found = if flat % 2 == 0 {
+            grid.index_of(&Array1::from(pt.clone()))
+        } else {
+            let mut r = pt.clone();
+            r.reverse();
+            let a = Array1::from(r);
+            grid.index_of(&a.slice(ndarray::s![..;-1]))
+        };
+        if found != Some(idx.clone()) {
             acc.violation("grid_index_of", None, cj(format!("Grid::index_of({:?}) != {:?}", pt, idx)));
             return;
         }
@@ -161,7 +193,16 @@ fn c13_grid(rng: &mut Rng, acc: &mut Acc) {
         let pt: Vec<i32> = (0..nd).map(|_| rng.range(-1, 12) as i32).collect();
         acc.eval();
         let want: Option<Vec<usize>> = (0..nd).map(|a| model_bin(&models[a], &pt[a])).collect();
-        let got = grid.index_of(&Array1::from(pt.clone()));
+        let got = {
+            // stepped view: coordinates interleaved with junk
+            let mut big = vec![];
+            for &c in &pt {
+                big.push(c);
+                big.push(-99);
+            }
+            let a = Array1::from(big);
+            grid.index_of(&a.slice(ndarray::s![..;2]))
+        };
         if got != want {
             acc.violation("grid_index_of", None, cj(format!("Grid::index_of({:?}) = {:?}, expected {:?}", pt, got, want)));
             return;
@@ -713,16 +754,16 @@ fn main() {
             // i32 with doubled values so that the half-way probes are integers
             let e32: Vec<i32> = seq.iter().map(|&x| x as i32 * 2).collect();
             let p32: Vec<i32> = (-2..=12).collect();
-            let ok = c13_edges(acc, &e32, &p32, false, "i32") && c13_edges(acc, &e32, &p32, true, "i32");
+            let ok = c13_edges(acc, &e32, &p32, 0, &77, "i32") && c13_edges(acc, &e32, &p32, 1, &77, "i32") && c13_edges(acc, &e32, &p32, 2, &77, "i32") && c13_edges(acc, &e32, &p32, 3, &77, "i32");
             if ok {
                 let e64: Vec<N64> = seq.iter().map(|&x| n64(x as f64)).collect();
                 let p64: Vec<N64> = (-2..=12).map(|x| n64(x as f64 * 0.5)).collect();
-                c13_edges(acc, &e64, &p64, k % 2 == 0, "N64");
+                c13_edges(acc, &e64, &p64, (k % 4) as usize, &n64(77.0), "N64");
                 if thorough {
                     let et: Vec<Tracked> = seq.iter().enumerate().map(|(i, &x)| Tracked { key: x as u8 * 2, id: i as u16 }).collect();
                     let pt: Vec<Tracked> = (0..=12).map(|x| Tracked { key: x as u8, id: 999 }).collect();
                     // Tracked compares by key only: Debug output shows ids, equality ignores them
-                    c13_edges(acc, &et, &pt, false, "Tracked");
+                    c13_edges(acc, &et, &pt, (k % 4) as usize, &Tracked { key: 250, id: 7 }, "Tracked");
                 }
             }
             acc.exact_nontrivial += if l >= 2 { 1 } else { 0 };
